@@ -104,6 +104,11 @@ func (w *world) producer(id, ncalls int) {
 			w.jobs = append(w.jobs, j)
 			js = append(js, j)
 			fns = append(fns, w.mkJob(j))
+			if c.S.FaultP(80) {
+				// a nil job is allowed: it occupies a slot for an instant and does nothing
+				c.S.Count("fault:nil-arg")
+				fns = append(fns, nil)
+			}
 		}
 		c.Descf("producer %d: Enqueue(%d jobs)", id, n)
 		queued, running := w.q.Enqueue(fns...)
